@@ -113,7 +113,55 @@ fn run_on<T: DrawTarget<Color = Rgb888, Error = FaultErr>>(
     }
 }
 
+/// A colour stream with a constant-time nth(): the colour of stream position i of an area `w` wide is a function of
+/// (row, column) = (i / w, i % w), so that the checker can predict it without forming i (which exceeds 32 bits).
+struct RowColStream {
+    pos: u64,
+    w: u64,
+}
+impl RowColStream {
+    fn colour(row: u64, col: u64) -> u32 {
+        ((row * 7 + col * 3) % 251) as u32
+    }
+}
+impl Iterator for RowColStream {
+    type Item = Rgb888;
+    fn next(&mut self) -> Option<Rgb888> {
+        let c = Self::colour(self.pos / self.w, self.pos % self.w);
+        self.pos += 1;
+        Some(<Rgb888 as Col>::from_u32(c))
+    }
+    fn nth(&mut self, n: usize) -> Option<Rgb888> {
+        self.pos += n as u64;
+        self.next()
+    }
+}
+
+/// fill_contiguous of a huge area through a clipped target whose clip area lies behind stream position 2^32
+fn run_hugeclip(rec: &mut Rec, desc: &Value) {
+    rec.begin(desc.clone());
+    let (pbox, clip, area) = (rect_from(&desc["pbox"]), rect_from(&desc["clip"]), rect_from(&desc["area"]));
+    let r = catch(|| {
+        let mut p = LogNative::<Rgb888>::new(pbox);
+        p.clipped(&clip).fill_contiguous(&area, RowColStream { pos: 0, w: area.size.width as u64 }).unwrap();
+        p.calls_json()
+    });
+    match r {
+        Ok(calls) => {
+            rec.nontrivial();
+            rec.ev("hugeclip", json!({"pbox": desc["pbox"], "clip": desc["clip"], "area": desc["area"], "parent": calls}));
+        }
+        Err(p) => {
+            rec.note("panicked_operations");
+            rec.ev("oppanic", json!({"op": desc, "msg": p.msg, "loc": p.loc}));
+        }
+    }
+}
+
 fn run_case(rec: &mut Rec, desc: &Value) {
+    if desc["k"].as_str() == Some("hugeclip") {
+        return run_hugeclip(rec, desc);
+    }
     rec.begin(desc.clone());
     let pbox = rect_from(&desc["pbox"]);
     let r = catch(|| {
@@ -268,6 +316,12 @@ fn main() {
             ]);
             run_case(&mut rec, &json!({"pbox": [0, 0, 9, 7], "native": 0, "layers": layers, "ops": ops, "huge": 1, "cap": 700}));
         }
+    }
+    // a huge area through a clipped target: the visible part lies behind stream position 2^32 (rows above the clip x
+    // width + columns left of it), so the adapter has to seek that far in the colour stream
+    for (area, clip) in [([-70000, -70000, 70010, 70012], [0, 0, 9, 7]), ([-5, -65536, 65536, 65540], [1, 1, 6, 3]), ([-100000, -43000, 100004, 43003], [0, 0, 12, 8]),
+                         ([2, -3, 70000, 5], [3, 0, 4, 4])] {
+        run_case(&mut rec, &json!({"k":"hugeclip","pbox":[0, 0, 12, 8],"clip":clip,"area":area}));
     }
     // seeded stacks of depth <= 3
     let nseed = if th { 60_000 } else { 3_000 };
